@@ -8,6 +8,7 @@ M4  a pointer result that is NULL when the callee hits an I/O failure is tested 
 DIV a divisor decoded from file bytes is tested against zero before the first division by it
 """
 from .facts import kind, strip, walk, path, render, int_val, is_int, calls_in, mem_field, base_var, unseen
+from .par import pmap
 from .flow import PathAnalysis, fail_values, classify_ret, call_key
 
 RELEASERS = {"free": 0, "HIrelease_accrec_node": 0}
@@ -389,6 +390,41 @@ class Mem(PathAnalysis):
                 self.param_released_on_fail[i] = ok if cur is None else (cur and ok)
 
 
+_PAR = {}
+
+
+def _relf_worker(nm):
+    prog, relf, f = _PAR["prog"], _PAR["relf"], _PAR["byname"][nm]
+    a = Mem(prog, relf)
+    a.fails = fail_values(f, prog)
+    try:
+        a.run(f)
+    except Exception:
+        return []
+    if getattr(a, "hard_degraded", False):
+        return []
+    return [i for i, ok in (a.param_released_on_fail or {}).items() if ok]
+
+
+def _mem_worker(nm):
+    prog, relf, W, f = _PAR["prog"], _PAR["relf"], _PAR["W"], _PAR["funcs"][nm]
+    a = Mem(prog, relf, W)
+    a.fails = fail_values(f, prog)
+    res = {"err": None, "explode": False, "hard": False, "findings": {}, "sites": {}}
+    try:
+        a.run(f)
+    except Exception as e:
+        if "state explosion" in str(e):
+            res["explode"] = True
+        else:
+            res["err"] = str(e)
+        return res
+    res["hard"] = bool(getattr(a, "hard_degraded", False))
+    res["findings"] = dict(a.findings)
+    res["sites"] = {k: len(v) for k, v in a.sites.items()}
+    return res
+
+
 def summarise_relf(prog, funcs):
     """(function, param index) pairs: the function releases that pointer argument on every failing return (or it is NULL)"""
     relf = set()
@@ -398,20 +434,13 @@ def summarise_relf(prog, funcs):
         pn = {p[0] for p in f.params}
         if any(c[1] in RELEASERS and c[3] and _arg_path(c[3][0]) in pn for _, _, _, c in f.calls()):
             cands.append(f)
+    byname = {f.name: f for f in cands}
     for _round in range(3):
         new = set()
-        for f in cands:
-            a = Mem(prog, relf)
-            a.fails = fail_values(f, prog)
-            try:
-                a.run(f)
-            except Exception:
-                continue
-            if getattr(a, "hard_degraded", False):
-                continue
-            for i, ok in (a.param_released_on_fail or {}).items():
-                if ok:
-                    new.add((f.name, i))
+        _PAR.update(prog=prog, relf=set(relf), byname=byname)
+        for nm, idx in pmap(_relf_worker, sorted(byname), "memrelf").items():
+            for i in idx:
+                new.add((nm, i))
         if new <= relf:
             break
         relf |= new
@@ -430,29 +459,34 @@ def rule_mem(ctx, W=None):
     relf = summarise_relf(prog, funcs)
     ctx.stats["release_on_fail_summaries"] = sorted("%s#%d" % x for x in relf)
     counts = {"M1": 0, "M2": 0, "M3": 0, "M4": 0}
+    todo = []
+    pfn = _ptr_fail_null(prog)
     for nm, f in sorted(funcs.items()):
-        interesting = False
-        pfn = _ptr_fail_null(prog)
         for _, _, _, c in f.calls():
             if c[1] in RELEASERS or c[1] in STDIO_STREAM_ARG or (c[1] in pfn and c[1] in W):
-                interesting = True
+                todo.append(nm)
                 break
-        if not interesting:
+    _PAR.update(prog=prog, relf=relf, W=W, funcs=funcs)
+    results = pmap(_mem_worker, todo, "memmain")
+    for nm in todo:
+        f = funcs[nm]
+        res = results[nm]
+        nskip = sum(1 for _, _, _, c in f.calls() if c[1] in RELEASERS or c[1] in STDIO_STREAM_ARG)
+        if res["explode"]:
+            ctx.excepted("MEM", "MEM:%s" % nm, f.where(), "not decided: too many path states for the path-sensitive ownership analysis (%d call sites skipped)" % nskip)
             continue
-        a = Mem(prog, relf, W)
-        a.fails = fail_values(f, prog)
-        try:
-            a.run(f)
-        except Exception as e:
-            if "state explosion" in str(e):
-                ctx.excepted("MEM", "MEM:%s" % nm, f.where(), "not decided: too many path states for the path-sensitive ownership analysis (%d call sites skipped)" %
-                             sum(1 for _, _, _, c in f.calls() if c[1] in RELEASERS or c[1] in STDIO_STREAM_ARG))
-            else:
-                ctx.unrecognised("MEM", "MEM:%s" % nm, f.where(), "analysis failed: %s" % e)
+        if res["err"]:
+            ctx.unrecognised("MEM", "MEM:%s" % nm, f.where(), "analysis failed: %s" % res["err"])
             continue
-        if getattr(a, "hard_degraded", False) and a.findings:
+        if res["hard"] and res["findings"]:
             ctx.excepted("MEM", "MEM:%s" % nm, f.where(), "not decided: path environment dropped (too many states); reports would not be reliable")
             continue
+
+        class _A:
+            pass
+        a = _A()
+        a.findings = res["findings"]
+        a.sites = {k: range(v) for k, v in res["sites"].items()}
         bad = {}
         for (rule, site), txt in a.findings.items():
             bad.setdefault(rule, []).append((site, txt))
